@@ -40,6 +40,7 @@ theorem hash_int_decodable (v : Int) (b : Bytes) (h : hashInt v = some b) :
     b.length = 4 ∧ decode32 b = some v :=
   ⟨hashInt_length h, decode32_hashInt h⟩
 
+/-- Distinct accepted values are written as distinct bytes. -/
 theorem hash_int_injective (v w : Int) (b : Bytes) (hv : hashInt v = some b)
     (hw : hashInt w = some b) : v = w := hashInt_inj hv hw
 
@@ -48,14 +49,19 @@ theorem hash_int_injective (v w : Int) (b : Bytes) (hv : hashInt v = some b)
 theorem framing_int (v w : Int) (a b x y : Bytes) (hv : hashInt v = some a)
     (hw : hashInt w = some b) (h : a ++ x = b ++ y) : v = w ∧ x = y := hashInt_prefix hv hw h
 
+/-- `hash_string` writes the number of code points and then UTF-8, a prefix code: the string can be
+split off the front of any stream (whatever follows). -/
 theorem framing_string (s t : String) (a b x y : Bytes) (hs : hashString s = some a)
     (ht : hashString t = some b) (h : a ++ x = b ++ y) : s = t ∧ x = y :=
   hashString_prefix hs ht h
 
+/-- `hash_attributes` writes version, count, byte length and then exactly that many bytes. -/
 theorem framing_attributes (c c' : Nat) (blob blob' a a' x y : Bytes)
     (h1 : hashAttrs c blob = some a) (h2 : hashAttrs c' blob' = some a')
     (h : a ++ x = a' ++ y) : c = c' ∧ blob = blob' ∧ x = y := hashAttrs_prefix h1 h2 h
 
+/-- The shape is written as fixed-width extents WITHOUT their number: it can be split off only when
+the rank is known. -/
 theorem framing_shape_given_rank (s s' : List Nat) (a a' x y : Bytes) (hr : s.length = s'.length)
     (h1 : shapeBytes s = some a) (h2 : shapeBytes s' = some a') (h : a ++ x = a' ++ y) :
     s = s' ∧ x = y := shapeBytes_prefix s s' a a' x y hr h1 h2 h
@@ -73,11 +79,16 @@ theorem key_inputs (spec spec' : ConvSpec) (cid : ConvId) (ver : String) (ds ds'
     datasetStream spec cid ver ds = datasetStream spec' cid ver ds' := by
   simp [datasetStream, h]
 
+/-- *Global attributes* and the sizes of all *dimensions* (time steps among them) are not inputs. -/
 theorem global_attrs_and_dims_not_input (spec : ConvSpec) (cid : ConvId) (ver : String)
     (ds : Dataset) (a : List (String × String)) (d : List (String × Nat)) :
     datasetStream spec cid ver { ds with attrs := a, dims := d } = datasetStream spec cid ver ds :=
   rfl
 
+/-- *Data variables changed / time steps.*  Two datasets whose variables look the same to the
+inventories (names, dimensions, coordinate status, string attributes, order) and whose inventory
+variables carry the same records get the same stream — whatever the values, shapes, types and other
+attributes of every other variable. -/
 theorem non_geometry_data_not_input (spec : ConvSpec) (cid : ConvId) (ver : String)
     (ds ds' : Dataset) (hv : ds.views = ds'.views)
     (hr : ∀ names, inventory spec ds = some names → ∀ n ∈ names,
@@ -126,24 +137,6 @@ theorem insert_variable_not_input (spec : ConvSpec) (cid : ConvId) (ver : String
 
 /-! ## single edits of geometry content change the stream -/
 
-/-- Two streams that share the variables `pre` and then continue with `r` / `r'`:
-if the streams are equal, so are the two continuations from that point on. -/
-theorem diverge {pre post post' : List GeomRec} {r r' : GeomRec} {c c' : ConvId}
-    {ver ver' : String} {s : Bytes}
-    (h : cacheStream (pre ++ r :: post) c ver = some s)
-    (h' : cacheStream (pre ++ r' :: post') c' ver' = some s) :
-    ∃ a a' q q' t t', hashVar r = some a ∧ hashVar r' = some a' ∧
-      hashGeometry post = some q ∧ hashGeometry post' = some q' ∧
-      trailer c ver = some t ∧ trailer c' ver' = some t' ∧
-      a ++ (q ++ t) = a' ++ (q' ++ t') := by
-  obtain ⟨p, a, q, t, hp, ha, hq, ht, hs⟩ := cacheStream_split h
-  obtain ⟨p', a', q', t', hp', ha', hq', ht', hs'⟩ := cacheStream_split h'
-  rw [hp] at hp'
-  have : p = p' := Option.some.inj hp'
-  subst this
-  rw [hs] at hs'
-  exact ⟨a, a', q, q', t, t', ha, ha', hq, hq', ht, ht', List.append_cancel_left hs'⟩
-
 theorem edit_rename_changes_stream (pre post post' : List GeomRec) (r r' : GeomRec)
     (c c' : ConvId) (ver ver' : String) (s s' : Bytes)
     (h : cacheStream (pre ++ r :: post) c ver = some s)
@@ -153,6 +146,7 @@ theorem edit_rename_changes_stream (pre post post' : List GeomRec) (r r' : GeomR
   obtain ⟨a, a', q, q', t, t', ha, ha', -, -, -, -, e⟩ := diverge h h'
   exact hne (hashVar_prefix_header ha ha' e).1
 
+/-- *Dtype.*  … differs in its dtype name: the streams differ (whatever happens to its bytes). -/
 theorem edit_dtype_changes_stream (pre post post' : List GeomRec) (r r' : GeomRec)
     (c c' : ConvId) (ver ver' : String) (s s' : Bytes)
     (h : cacheStream (pre ++ r :: post) c ver = some s)
@@ -162,6 +156,7 @@ theorem edit_dtype_changes_stream (pre post post' : List GeomRec) (r r' : GeomRe
   obtain ⟨a, a', q, q', t, t', ha, ha', -, -, -, -, e⟩ := diverge h h'
   exact hne (hashVar_prefix_header ha ha' e).2.1
 
+/-- … differs in its number of elements: the streams differ. -/
 theorem edit_size_changes_stream (pre post post' : List GeomRec) (r r' : GeomRec)
     (c c' : ConvId) (ver ver' : String) (s s' : Bytes)
     (h : cacheStream (pre ++ r :: post) c ver = some s)
@@ -171,6 +166,7 @@ theorem edit_size_changes_stream (pre post post' : List GeomRec) (r r' : GeomRec
   obtain ⟨a, a', q, q', t, t', ha, ha', -, -, -, -, e⟩ := diverge h h'
   exact hne (hashVar_prefix_header ha ha' e).2.2
 
+/-- *Shape*, same rank: the streams differ, whatever else differs after it. -/
 theorem edit_shape_same_rank_changes_stream (pre post post' : List GeomRec) (r r' : GeomRec)
     (c c' : ConvId) (ver ver' : String) (s s' : Bytes)
     (h : cacheStream (pre ++ r :: post) c ver = some s)
@@ -203,6 +199,8 @@ theorem edit_shape_changes_stream (pre post : List GeomRec) (r : GeomRec) (shape
     simp only [List.length_append, hashVar_length ha, hashVar_length ha', varLength, dataOffset] at hl
     omega
 
+/-- *One value* (or any change of the raw bytes that keeps their number): same shape, other bytes ⇒
+the streams differ, whatever else differs after the data. -/
 theorem edit_value_changes_stream (pre post post' : List GeomRec) (r r' : GeomRec)
     (c c' : ConvId) (ver ver' : String) (s s' : Bytes)
     (h : cacheStream (pre ++ r :: post) c ver = some s)
@@ -221,6 +219,9 @@ theorem edit_value_changes_stream (pre post post' : List GeomRec) (r r' : GeomRe
   cases hsh
   exact hne (List.append_inj (List.append_cancel_left e) hlen).1
 
+/-- *Attribute add / change / remove*: same shape and bytes, another attribute count or other
+attribute bytes ⇒ the streams differ, whatever follows.  (That different attributes HAVE different
+bytes is the assumption on the serialiser, see the trusted base.) -/
 theorem edit_attributes_changes_stream (pre post post' : List GeomRec) (r r' : GeomRec)
     (c c' : ConvId) (ver ver' : String) (s s' : Bytes)
     (h : cacheStream (pre ++ r :: post) c ver = some s)
@@ -243,6 +244,8 @@ theorem edit_attributes_changes_stream (pre post post' : List GeomRec) (r r' : G
   · exact h1 hc
   · exact h1 hb
 
+/-- *Convention* (module or class name) or package version: same records, another identity ⇒ the
+streams differ. -/
 theorem edit_convention_changes_stream (rs : List GeomRec) (c c' : ConvId) (ver ver' : String)
     (s s' : Bytes) (h : cacheStream rs c ver = some s) (h' : cacheStream rs c' ver' = some s')
     (hne : c ≠ c' ∨ ver ≠ ver') : s ≠ s' := by
@@ -256,12 +259,6 @@ theorem edit_convention_changes_stream (rs : List GeomRec) (c c' : ConvId) (ver 
   rcases hne with h1 | h1
   · exact h1 hc
   · exact h1 hv
-
-theorem set_middle {α} (X D Y : List α) (k : Nat) (b : α) (hk : k < D.length) :
-    (X ++ (D ++ Y)).set (X.length + k) b = X ++ (D.set k b ++ Y) := by
-  rw [List.set_append_right _ _ (by omega)]
-  congr 1
-  rw [Nat.add_sub_cancel_left, List.set_append_left _ _ hk]
 
 /-- *One value*: overwriting byte `k` of the data of one variable overwrites exactly the
 stream byte at `geomLength pre + dataOffset r + k` and leaves every other byte and the
@@ -289,39 +286,12 @@ theorem edit_value_position (pre post : List GeomRec) (r : GeomRec) (c : ConvId)
   rw [e1, hlen, set_middle _ _ _ _ _ hk]
   simp only [List.append_assoc]
 
+/-- `valuePos` (the position function the driver evaluates) is the position of `edit_value_position`. -/
 theorem valuePos_split (pre post : List GeomRec) (r : GeomRec) (k : Nat) :
     valuePos (pre ++ r :: post) pre.length k = geomLength pre + dataOffset r + k := by
   simp [valuePos]
 
 /-! ## injectivity -/
-
-def SameRanks (rs rs' : List GeomRec) : Prop :=
-  rs.map (·.shape.length) = rs'.map (·.shape.length)
-
-def WellFormed (itemsize : String → Nat) (r : GeomRec) : Prop :=
-  r.data.length = Ems.size r.shape * itemsize r.dtype
-
-theorem hashGeometry_prefix_partial (itemsize : String → Nat) :
-    ∀ (rs rs' : List GeomRec) (g g' x y : Bytes),
-    (∀ r ∈ rs, WellFormed itemsize r) → (∀ r ∈ rs', WellFormed itemsize r) →
-    SameRanks rs rs' → hashGeometry rs = some g → hashGeometry rs' = some g' →
-    g ++ x = g' ++ y → rs = rs' ∧ x = y
-  | [], [], g, g', x, y, _, _, _, h, h', e => by
-    simp [hashGeometry] at h h'; subst h; subst h'; simpa using e
-  | [], _ :: _, _, _, _, _, _, _, hr, _, _, _ => by simp [SameRanks] at hr
-  | _ :: _, [], _, _, _, _, _, _, hr, _, _, _ => by simp [SameRanks] at hr
-  | r :: rs, r' :: rs', g, g', x, y, hwf, hwf', hr, h, h', e => by
-    obtain ⟨a, q, ha, hq, rfl⟩ := hashGeometry_cons_eq_some h
-    obtain ⟨a', q', ha', hq', rfl⟩ := hashGeometry_cons_eq_some h'
-    simp only [SameRanks, List.map_cons, List.cons.injEq] at hr
-    simp only [List.append_assoc] at e
-    have w := hwf r (by simp)
-    have w' := hwf' r' (by simp)
-    obtain ⟨hrr, e⟩ := hashVar_prefix_full ha ha' hr.1
-      (fun _ hd hs => by unfold WellFormed at w w'; rw [w, w', hd, hs]) e
-    obtain ⟨hrs, hxy⟩ := hashGeometry_prefix_partial itemsize rs rs' q q' x y
-      (fun r hr => hwf r (by simp [hr])) (fun r hr => hwf' r (by simp [hr])) hr.2 hq hq' e
-    exact ⟨by rw [hrr, hrs], hxy⟩
 
 theorem stream_injective_partial (itemsize : String → Nat) (rs rs' : List GeomRec)
     (c c' : ConvId) (ver ver' : String) (s : Bytes)
@@ -335,11 +305,8 @@ theorem stream_injective_partial (itemsize : String → Nat) (rs rs' : List Geom
   subst htt
   exact ⟨hrs, trailer_inj ht ht'⟩
 
-def witnessA : GeomRec :=
-  { name := "a", dtype := "i", shape := [2], data := le32 1 ++ le32 4, attrCount := 4, attrBlob := [0, 0, 0, 0] }
-def witnessB : GeomRec :=
-  { name := "a", dtype := "i", shape := [2, 1], data := le32 4 ++ le32 4, attrCount := 4, attrBlob := [] }
-
+/-- Without `SameRanks` the stream is not injective, even on well-formed records: a rank-1 and a
+rank-2 variable (with different data and attribute bytes) that contribute identical bytes. -/
 theorem stream_not_injective :
     ∃ (rs rs' : List GeomRec) (c : ConvId) (ver : String) (s : Bytes),
       cacheStream rs c ver = some s ∧ cacheStream rs' c ver = some s ∧ rs ≠ rs' ∧
@@ -427,7 +394,7 @@ example : inventoryOf (.ugrid ["face_edge_connectivity"])
         ("face_coordinates", "fx fy")]⟩,
      ⟨"nx", ["n"], false, []⟩, ⟨"ny", ["n"], false, []⟩, ⟨"fn", ["f", "m"], false, []⟩,
      ⟨"fe", ["f", "m"], false, []⟩, ⟨"en", ["e", "two"], false, []⟩, ⟨"fx", ["f"], false, []⟩, ⟨"fy", ["f"], true, []⟩]
-    = some ["Mesh2", "fn", "nx", "ny", "fe", "fx"] := by decide
+    = some ["Mesh2", "fn", "nx", "ny", "fe", "fx", "fy"] := by decide
 
 /-- out-of-range and in-range `hash_int` -/
 example : hashInt 2147483648 = none ∧ hashInt (-2147483649) = none
